@@ -718,7 +718,7 @@ def make_cases(ctx, rnd):
         cases.append(Case(tabs, ("ops", (("select", tuple((("col", c), c) for c in n0[-2:])), ("distinct",)), t), origin="byname-missing"))
         if len(n0) == 4:      # the result is used positionally by the next operation
             cases.append(Case(tabs, ("set", "exceptAll", t, ("in", T_VZKC)), origin="byname-missing"))
-            cases.append(Case(tabs, ("ops", (("where", ("not", ("isnull", ("col", n0[2])))),),
+            cases.append(Case(tabs, ("ops", (("where", ("not", ("isnull", ("col", "y")))),),
                                      ("set", "union", ("in", T_ZAYB), t)), origin="byname-missing"))
     # spelling: names come from the LEFT operand exactly as the left spells them (df.columns compared exactly)
     for call in POSITIONAL:
